@@ -406,10 +406,14 @@ type Writer struct {
 	pending []*pendingWrite
 	Done    [][]byte // completed writes (what reached "the wire"), in order
 	AutoOK  bool
-	Max     int // number of overlapping writes ever observed (must stay 1)
+	Max     int            // number of overlapping writes ever observed (must stay 1)
+	OnWrite func(p []byte) // called at the entry of every Write, before it parks or completes
 }
 
 func (w *Writer) Write(p []byte) (int, error) {
+	if w.OnWrite != nil {
+		w.OnWrite(p)
+	}
 	cp := append([]byte(nil), p...)
 	w.mu.Lock()
 	if w.AutoOK {
